@@ -606,6 +606,16 @@ func (ex *Exec) byContract(fr *Frame, st *State, ci *ssa.Call, ct *Contract, key
 		ex.assume(st.pc, cpost.bool(c.Expr))
 		ex.trustedUsed["assumes:"+key+": "+c.Text] = true
 	}
+	// asmreturns: the value set is established by the dataflow over the assembly text (asmret.go), not assumed
+	for _, ar := range ct.AsmReturns {
+		if v, ok := env2[ar.Result]; ok && v.K == KScalar && v.T.Sort.K == SBV {
+			var alts []Term
+			for _, c := range ar.Allowed {
+				alts = append(alts, Eq(v.T, BVConst(c, v.T.Sort.W)))
+			}
+			ex.assume(st.pc, Or(alts...))
+		}
+	}
 	return res
 }
 
